@@ -551,6 +551,32 @@ func c11subscribe(c *core.Ctx, ds *ssa.Function, ev *c11evals) {
 	// which handler is which: the field written by ObserveOn (resp. SubscribeOn) and the parameter of the
 	// subscribe routine that receives it at the call sites
 	obNames, subNames := c11handlerNames(p, ds, "ObserveOn"), c11handlerNames(p, ds, "SubscribeOn")
+	// the latest setter call wins for every argument, nil included: the store of the parameter is on every path
+	for _, setter := range []string{"ObserveOn", "SubscribeOn"} {
+		if m := p.Method(p.Fpgo, "MonadIODef", setter); m != nil && len(m.Params) >= 2 {
+			var store *ssa.Store
+			core.Instrs(m, func(ins ssa.Instruction) {
+				if st, ok := ins.(*ssa.Store); ok && core.Resolve(st.Val) == ssa.Value(m.Params[1]) {
+					if _, isFA := st.Addr.(*ssa.FieldAddr); isFA {
+						store = st
+					}
+				}
+			})
+			if store == nil {
+				continue // handler-roles below reports the missing store
+			}
+			always := true
+			for _, b := range m.Blocks {
+				if len(b.Instrs) == 0 {
+					continue
+				}
+				if _, isRet := b.Instrs[len(b.Instrs)-1].(*ssa.Return); isRet && !store.Block().Dominates(b) {
+					always = false
+				}
+			}
+			c.Check(always, "R3", setter+"/latest-wins", p.InstrPos(store), "the handler argument is stored on every path", setter+" keeps the previous handler for some argument (the store of the parameter is conditional): "+setter+"(h1) followed by "+setter+"(nil) still routes through h1, so the effect / OnNext does not run where the latest call says")
+		}
+	}
 	if len(obNames) == 0 || len(subNames) == 0 {
 		c.Unknown("R3", "doSubscribe/handler-roles", p.Pos(ds.Pos()), "cannot tell which handler of the subscribe routine was set by ObserveOn and which by SubscribeOn")
 	} else if by != "" && !obNames[by] {
